@@ -107,7 +107,9 @@ def r1_terminators(m, ctx):
                     if g is tf:
                         continue
                     r.instances += 1
-                    arg = A.text(call.args[0])[:60] if call.args else ""
+                    # (keyed by the message literal, not by the names of the locals formatted into it)
+                    lits = [n_.value for n_ in ast.walk(call.args[0]) if isinstance(n_, ast.Constant) and isinstance(n_.value, str)] if call.args else []
+                    arg = repr(lits[0])[:60] if lits else (A.text(call.args[0])[:60] if call.args else "")
                     r.ob(False)
                     r.fail("%s->%s|%s" % (g.qualname, tf.qualname, arg),
                            "%s calls %s (`%s`), which terminates the process (`%s`) -- reachable from the parser entry points"
